@@ -367,6 +367,7 @@ pub struct Ctx<'s> {
     out: Box<dyn Write + 's>,
     pub single_report: Vec<String>,
     cur_at: &'static str,
+    unit_ms: u64,
 }
 
 pub struct Case {
@@ -462,6 +463,7 @@ impl<'s> Ctx<'s> {
             out,
             single_report: vec![],
             cur_at: "",
+            unit_ms: 0,
         }
     }
 
@@ -501,15 +503,17 @@ impl<'s> Ctx<'s> {
                         } else {
                             format!("fatal signal {}", signal)
                         };
-                        let sig = format!("crash:{}:{}:{}", what, at, d.shape);
+                        let sig = format!("crash:{}:{}", what, at);
                         let detail = format!(
-                            "worker died with {} while executing this case (last entry point: {})",
-                            what, at
+                            "worker died with {} while executing this case (last entry point: {}; shape {})",
+                            what, at, d.shape
                         );
                         self.violations.push((sig, detail, d, self.unit, idx));
                         self.cnt.transitions += 1;
                         self.cnt.states += 1;
                         self.mode = Mode::Normal;
+                        // the next case may crash as well: get this record out right now
+                        self.flush_violations();
                         return;
                     }
                 }
@@ -605,8 +609,8 @@ impl<'s> Ctx<'s> {
         let c = std::mem::take(&mut self.cnt);
         let _ = writeln!(
             self.out,
-            "U\t{}\t{}\t{}\t{}\t{}\t{}",
-            self.unit, c.states, c.transitions, c.evals, c.nontrivial, c.dups
+            "U\t{}\t{}\t{}\t{}\t{}\t{}\t{}",
+            self.unit, c.states, c.transitions, c.evals, c.nontrivial, c.dups, self.unit_ms
         );
         for o in self.new_outcomes.drain(..) {
             let _ = writeln!(self.out, "O\t{}", esc(&o));
@@ -614,6 +618,13 @@ impl<'s> Ctx<'s> {
         for (k, v) in std::mem::take(&mut self.reach) {
             let _ = writeln!(self.out, "R\t{}\t{}", esc(&k), v);
         }
+        self.flush_violations();
+        for s in self.samples.drain(..) {
+            let _ = writeln!(self.out, "S\t{}", esc(&s));
+        }
+        let _ = self.out.flush();
+    }
+    fn flush_violations(&mut self) {
         for (sig, detail, d, unit, idx) in self.violations.drain(..) {
             let _ = writeln!(
                 self.out,
@@ -626,9 +637,6 @@ impl<'s> Ctx<'s> {
                 esc(&d.text),
                 esc(&detail)
             );
-        }
-        for s in self.samples.drain(..) {
-            let _ = writeln!(self.out, "S\t{}", esc(&s));
         }
         let _ = self.out.flush();
     }
@@ -678,11 +686,13 @@ pub fn worker_main(check: &dyn Check, tier: Tier, args: &[String]) -> i32 {
         }
         ctx.unit = u;
         ctx.idx = 0;
+        let t_unit = Instant::now();
         // mark "between cases" so that a crash in enumeration code is not attributed to a case
         shm.cell(wid, 0).store(u, Ordering::Relaxed);
         shm.cell(wid, 1).store(u64::MAX, Ordering::Relaxed);
         shm.cell(wid, 2).fetch_add(1, Ordering::Relaxed);
         check.run_unit(tier, u, &mut ctx);
+        ctx.unit_ms = t_unit.elapsed().as_millis() as u64;
         ctx.flush_unit();
     }
     ctx.flush_end();
@@ -729,6 +739,7 @@ struct Agg {
     // sig -> (rank, unit, idx, shape, text, detail, count)
     viol: BTreeMap<String, (u64, u64, u64, String, String, String, u64)>,
     ended: HashSet<usize>,
+    unit_ms: Vec<(u64, u64, u64, u64)>,
     stderr_tail: BTreeMap<usize, Vec<String>>,
 }
 
@@ -742,6 +753,9 @@ fn absorb(agg: &mut Agg, wid: usize, line: &str) {
             agg.evals += f[4].parse::<u64>().unwrap_or(0);
             agg.nontrivial += f[5].parse::<u64>().unwrap_or(0);
             agg.dups += f[6].parse::<u64>().unwrap_or(0);
+            if f.len() >= 8 {
+                agg.unit_ms.push((f[7].parse::<u64>().unwrap_or(0), f[1].parse().unwrap_or(0), f[2].parse::<u64>().unwrap_or(0), f[3].parse::<u64>().unwrap_or(0)));
+            }
         }
         "O" if f.len() >= 2 => {
             agg.outcomes.insert(unesc(f[1]));
@@ -1132,6 +1146,16 @@ pub fn supervisor_main(check: &dyn Check, tier: Tier) -> i32 {
         id, tier.name(), agg.units_done.len(), units, agg.states, agg.transitions, agg.evals, agg.nontrivial,
         agg.outcomes.len(), agg.dups, crashes, exhaustive, wall
     );
+    if std::env::var("VERIF_PROFILE").is_ok() {
+        let mut v = agg.unit_ms.clone();
+        v.sort();
+        v.reverse();
+        let total: u64 = v.iter().map(|x| x.0).sum();
+        println!("profile: total unit time {} ms over {} units; slowest:", total, v.len());
+        for (ms, u, st, tr) in v.iter().take(25) {
+            println!("  unit {:5}: {:7} ms  states {:9} transitions {:9}", u, ms, st, tr);
+        }
+    }
     if !machinery_errors.is_empty() && new_viol.is_empty() {
         for m in &machinery_errors {
             eprintln!("MACHINERY-ERROR: {}", m);
